@@ -275,10 +275,16 @@ def include_rules(chk, rule, module, rule_ids, what):
     for key, msg in sub.undecided:
         if key.split(":")[0] in rule_ids and not any(k == "via-" + key for k, m in chk.undecided):
             chk.undecided.append(("via-" + key, msg))
+    # a finding that is already recorded as a known finding of the rule's own property is reported there (with its
+    # KNOWN-FINDING line); it is not raised a second time under the including property
+    own_known = {k["key"] for k in load_known().get("known", []) if any(k.get("key", "").startswith(rid + ":") for rid in rule_ids)}
     for r in sub.rules:
         if r.id in rule_ids:
             n += r.obligations
             for f in r.findings:
+                if f.key in own_known:
+                    rule.note("known finding of %s not repeated here: %s" % (f.key.split(".")[0], f.key))
+                    continue
                 g = rule.fail("via-" + f.key, "%s: %s" % (what, f.msg), file=f.file, line=f.line)
                 g.func = f.func
                 g.witness = f.witness
